@@ -30,6 +30,9 @@ type Query {
   nums: [Int]
   find(filter: Filter): [Keeper]
   boss: Keeper
+  ghost: String
+  relay(n: Int!): String
+  pick(i: Int!): Thing
 }
 type Mutation {
   rename(old: String!, new: String!): Keeper
@@ -43,11 +46,13 @@ type Dog implements Animal {
   legs: Int
   barks: Boolean
   owner: Keeper
+  code: Int
 }
 type Bird implements Animal {
   name: String!
   legs: Int
   wingspan: Float
+  code: String
 }
 union Thing = Dog | Bird | Keeper | Cell
 type Keeper {
@@ -59,11 +64,15 @@ type Keeper {
   motto(upper: Boolean!): String
   rank: Size
   dogs: [Dog]
+  ghost: Int
+  nick(n: Int): String
+  code(pad: Boolean!): String
 }
 type Cell {
   x: Int
   y: Int
   label: String
+  code: Float
 }
 enum Size {
   BIG
@@ -115,6 +124,7 @@ const (
 	FaultBadLeaf    = "bad_leaf"                    // un-coercible leaf value
 	FaultGroupExt   = "error_group_with_extensions" // ggql.Errors whose members are *ggql.Error with extensions
 	FaultNestedGrp  = "nested_error_group"          // ggql.Errors{e, ggql.Errors{e, e}}: three entries
+	FaultPanic      = "panic"                       // the resolver panics (the caller of ggql recovers): histories only
 	FaultBadList    = "bad_list_elements"           // a [scalar] field returns []interface{}{ok, bad, ok, bad}: two coercion failures in one list
 )
 
@@ -212,6 +222,8 @@ func (tr *Tracker) enter(typ, field string, args map[string]interface{}, path st
 	f := Fired{N: tr.N, Path: path, Kind: kind, Members: 1, Tag: tag, Field: field}
 	defer func() { tr.Fired = append(tr.Fired, f) }()
 	switch kind {
+	case FaultPanic:
+		panic("injected resolver panic " + tag)
 	case FaultError:
 		return kind, errors.New("injected failure " + tag)
 	case FaultGGQLError:
@@ -265,6 +277,14 @@ type Query struct {
 	// RawSlices (mixed roots only) hands typed slices of raw element types to
 	// ggql as they are instead of converting them to []interface{}.
 	RawSlices bool
+	// NoRegister leaves Dog and Bird unregistered on reflection roots (an
+	// application mistake: interface-typed fields then cannot find the concrete
+	// type until something else has bound it). Crash checks only.
+	NoRegister bool
+
+	// root is the root of the zoo built last over this graph (nested requests
+	// of the relay field go there).
+	root *ggql.Root
 
 	tr *Tracker
 }
@@ -294,6 +314,7 @@ type Dog struct {
 	Legs  int
 	Barks bool
 	Owner *Keeper
+	Code  int
 }
 
 // Bird is an animal.
@@ -301,6 +322,7 @@ type Bird struct {
 	Name     string
 	Legs     int
 	Wingspan float64
+	Code     string
 }
 
 // Cell is a grid cell.
@@ -308,6 +330,7 @@ type Cell struct {
 	X     int
 	Y     int
 	Label string
+	Code  float64
 }
 
 // FilterIn is the Go struct registered for the input type Filter on reflection
@@ -369,6 +392,58 @@ func filterMap(f *FilterIn) map[string]interface{} {
 	return map[string]interface{}{"minAge": f.MinAge, "names": names, "size": f.Size, "tag": f.Tag, "limit": f.Limit}
 }
 
+// Relay is the reflection method behind Query.relay: a resolver that issues a
+// nested request on the same root (for the same field while n > 0).
+func (q *Query) Relay(n int64) (string, error) {
+	if _, err := q.tr.enter("Query", "relay", map[string]interface{}{"n": n}, ""); err != nil {
+		return "", err
+	}
+	return relay(q, n), nil
+}
+
+func relay(q *Query, n int64) string {
+	if n <= 0 || q.root == nil {
+		return "bottom"
+	}
+	if n > 3 {
+		n = 3
+	}
+	return CanonLite(q.root.ResolveString("{ relay(n: "+strconv.FormatInt(n-1, 10)+") title }", "", nil))
+}
+
+// Pick is the reflection method behind Query.pick.
+func (q *Query) Pick(i int64) (interface{}, error) {
+	if _, err := q.tr.enter("Query", "pick", map[string]interface{}{"i": i}, ""); err != nil {
+		return nil, err
+	}
+	return pick(q, i), nil
+}
+
+func pick(q *Query, i int64) interface{} {
+	if len(q.Things) == 0 {
+		return nil
+	}
+	if i < 0 {
+		i = -i
+	}
+	return q.Things[int(i)%len(q.Things)]
+}
+
+// Nick is the reflection method behind Keeper.nick: the schema argument is
+// nullable, the Go parameter cannot take null.
+func (k *Keeper) Nick(n int64) string {
+	return "nick" + strconv.FormatInt(n, 10) + k.Name
+}
+
+// Code is the reflection method behind Keeper.code (the other union members
+// define code as a plain field of another type).
+func (k *Keeper) Code(pad bool) string {
+	if pad {
+		return "K--" + k.Name
+	}
+	return "K" + k.Name
+}
+
 // Echo is the reflection method behind Query.echo.
 func (q *Query) Echo(s string, n int64) (string, error) {
 	if _, err := q.tr.enter("Query", "echo", map[string]interface{}{"s": s, "n": n}, ""); err != nil {
@@ -416,11 +491,11 @@ func GenZoo(t *tape.Tape) *Query {
 		np := t.Draw(4)
 		for j := 0; j < np; j++ {
 			if t.Bool(1, 2) {
-				d := &Dog{Name: "d" + strconv.Itoa(i) + strconv.Itoa(j), Legs: 4, Barks: t.Bool(1, 2), Owner: k}
+				d := &Dog{Name: "d" + strconv.Itoa(i) + strconv.Itoa(j), Legs: 4, Barks: t.Bool(1, 2), Owner: k, Code: 100*i + j}
 				k.Pets = append(k.Pets, d)
 				k.Dogs = append(k.Dogs, d)
 			} else {
-				k.Pets = append(k.Pets, &Bird{Name: "b" + strconv.Itoa(i) + strconv.Itoa(j), Legs: 2, Wingspan: float64(t.Draw(30)) / 2})
+				k.Pets = append(k.Pets, &Bird{Name: "b" + strconv.Itoa(i) + strconv.Itoa(j), Legs: 2, Wingspan: float64(t.Draw(30)) / 2, Code: "B" + strconv.Itoa(i) + strconv.Itoa(j)})
 			}
 		}
 		for r := 0; r < t.Draw(3); r++ {
@@ -451,7 +526,7 @@ func GenZoo(t *tape.Tape) *Query {
 		}
 		q.Things = append(q.Things, k)
 	}
-	q.Things = append(q.Things, &Cell{X: 9, Y: 9, Label: "lone"})
+	q.Things = append(q.Things, &Cell{X: 9, Y: 9, Label: "lone", Code: 9.5})
 	for r := 0; r < 1+t.Draw(3); r++ {
 		var row []*Cell
 		for c := 0; c < t.Draw(4); c++ {
@@ -540,6 +615,10 @@ func zooField(q *Query, obj interface{}, name string, args map[string]interface{
 			return o.Nums, nil
 		case "boss":
 			return o.Boss, nil
+		case "relay":
+			return relay(o, toInt64(args["n"])), nil
+		case "pick":
+			return pick(o, toInt64(args["i"])), nil
 		case "find":
 			min := 0
 			if fi, _ := args["filter"].(*FilterIn); fi != nil {
@@ -584,6 +663,14 @@ func zooField(q *Query, obj interface{}, name string, args map[string]interface{
 				return strings.ToUpper(o.MottoS), nil
 			}
 			return o.MottoS, nil
+		case "nick":
+			if args["n"] == nil {
+				return "nick-" + o.Name, nil
+			}
+			return o.Nick(toInt64(args["n"])), nil
+		case "code":
+			pad, _ := args["pad"].(bool)
+			return o.Code(pad), nil
 		}
 	case *Dog:
 		switch name {
@@ -595,6 +682,8 @@ func zooField(q *Query, obj interface{}, name string, args map[string]interface{
 			return o.Barks, nil
 		case "owner":
 			return o.Owner, nil
+		case "code":
+			return o.Code, nil
 		}
 	case *Bird:
 		switch name {
@@ -604,6 +693,8 @@ func zooField(q *Query, obj interface{}, name string, args map[string]interface{
 			return o.Legs, nil
 		case "wingspan":
 			return o.Wingspan, nil
+		case "code":
+			return o.Code, nil
 		}
 	case *Cell:
 		switch name {
@@ -613,9 +704,23 @@ func zooField(q *Query, obj interface{}, name string, args map[string]interface{
 			return o.Y, nil
 		case "label":
 			return o.Label, nil
+		case "code":
+			return o.Code, nil
 		}
 	}
 	return nil, errors.New("zoo: no field " + name + " on " + reflect.TypeOf(obj).String())
+}
+
+func toInt64(v interface{}) int64 {
+	switch n := v.(type) {
+	case int:
+		return int64(n)
+	case int32:
+		return int64(n)
+	case int64:
+		return n
+	}
+	return 0
 }
 
 func typeNameOf(obj interface{}) string {
@@ -889,6 +994,7 @@ type ZooOpt struct {
 // NewZoo builds a cold root (nothing lazily bound yet).
 func NewZoo(q *Query, strat Strategy) (*Zoo, error) {
 	z := &Zoo{Q: q, Strat: strat}
+	defer func() { q.root = z.Root }()
 	sch := &ZooSchema{Query: q, Mutation: &Mutation{q: q}}
 	switch strat {
 	case StratReflect:
@@ -915,6 +1021,9 @@ func NewZoo(q *Query, strat Strategy) (*Zoo, error) {
 	if strat == StratReflect || strat == StratMixed {
 		if err := z.Root.RegisterType(&FilterIn{}, "Filter"); err != nil {
 			return nil, err
+		}
+		if q.NoRegister {
+			return z, nil
 		}
 		if err := z.Root.RegisterType(&Dog{}, "Dog"); err != nil {
 			return nil, err
